@@ -184,9 +184,23 @@ def symbolic_algebra(dim, nat):
     return fn
 
 
-QUICK = ['hcp', 'l12', 'rumpled', 'honeycomb', 'afm-square', 'afm-bcc', 'fm-hex', 'afm-hex', 'spinvec-sc', 'hcp-nosym', 'fcc-nosym', 'rect2', 'mono', 'nbo',
+QUICK = ['rutile', 'ab22', 'oblique-nosym', 'hcp', 'l12', 'rumpled', 'honeycomb', 'afm-square', 'afm-bcc', 'fm-hex', 'afm-hex', 'spinvec-sc', 'hcp-nosym', 'fcc-nosym', 'rect2', 'mono', 'nbo',
          'ortho-ab-general', 'tetra-polar-abx2', 'rect-ab-general', 'ortho-abc-mirror', 'tric-abc', 'helix-spin-against', 'helix-spin-with']
 THOROUGH = QUICK + ['sc', 'fcc', 'bcc', 'diamond', 'b2', 'bccoct', 'hcpoct', 'square', 'tria', 'wurtzite', 'fcc111', 'hex1']
+
+
+def constructs(cname):
+    """the crystal of the list can be built at all: a constructor that raises on a valid structure (e.g. because a group
+    operation carries a malformed index map) is a failure of the property, not of the harness"""
+    def fn(src=None):
+        src = src or Src()
+        try:
+            geom.get_crystal(cname)
+            ok = True
+        except Exception:
+            ok = False
+        return [('construct:%s:crystal-constructs' % cname, ok, src.info(sig='construct:crystal-constructs', replayer='construct', extra={'crystal': cname}))]
+    return fn
 
 
 def sections(tier):
@@ -194,6 +208,11 @@ def sections(tier):
     secs = []
     bud = 170 if tier == 'quick' else 1200
     for c in (QUICK if tier == 'quick' else THOROUGH):
+        secs.append(S('construct:' + c, constructs(c), budget_s=bud, replayer='construct', config=c, maxpaths=1))
+        try:
+            geom.get_crystal(c)
+        except Exception:
+            continue     # reported by the construct section; nothing else can be stated about it
         stride = 2
         for gsel in range(stride):
             secs.append(S('sound:%s:%d' % (c, gsel), soundness(c, gsel, stride), budget_s=bud, replayer='sound', config=c, maxpaths=8, timeout_ms=20000))
@@ -209,6 +228,7 @@ def main():
     warnings.simplefilter('ignore')
     if REPLAY:
         run.replay_main('C18', {
+            'construct': lambda rec: harness.run_laws_concrete(constructs(rec['extra']['crystal']), rec),
             'sound': lambda rec: harness.run_laws_concrete(soundness(rec['extra']['crystal'], rec['extra']['gsel'], rec['extra']['gstride']), rec),
             'axioms': lambda rec: harness.run_laws_concrete(group_axioms(rec['extra']['crystal']), rec),
             'algebra': lambda rec: harness.run_laws_concrete(symbolic_algebra(rec['extra']['dim'], rec['extra']['nat']), rec)})
